@@ -180,7 +180,7 @@ Proof.
     destruct Hg as [Hg|Hg]; subst; auto. rewrite Forall_forall in Hfs; auto.
   - apply insert_file_SS; auto. intros g Hg. apply HC; auto. left; auto.
   - intros f g Hf Hg. apply insert_file_In in Hg. destruct Hg as [Hg|Hg]; subst.
-    + rewrite Forall_forall in H5. destruct (H5 f Hf) as [H|H]; [right|left]; auto.
+    + rewrite Forall_forall in H3. destruct (H3 f Hf) as [H|H]; [right|left]; auto.
     + apply HC; auto. right; auto.
 Qed.
 
